@@ -29,6 +29,12 @@ func NewWith(convert StructOptions, value interface{}) Value {
 		return Null{}
 	}
 
+	// a nil pointer is null, whatever methods its type has (a value-receiver
+	// MarshalValue cannot even be called through it)
+	if v := reflect.ValueOf(value); v.Kind() == reflect.Ptr && v.IsNil() {
+		return Null{}
+	}
+
 	// see if value implements MarshalValue
 	if mar, ok := value.(Marshaler); ok {
 		return mar.MarshalValue()
